@@ -22,7 +22,7 @@
     deep-compares host and pattern before/after every call (TESTED_NOT_PROVED). *)
 From Coq Require Import List NArith Bool Arith Permutation SetoidList Relations.
 From SK Require Import lib.LGraph lib.Mono model.C06_Model lib.C06_Spec
-  proof.C06_All proof.C06_Comp proof.C06_Comps proof.C06_CompSem proof.C06_CompNoDup proof.C06_Prefilter proof.C06_Main.
+  proof.C06_All proof.C06_Comp proof.C06_Comps proof.C06_CompSem proof.C06_CompNoDup proof.C06_Prefilter proof.C06_Table proof.C06_Main.
 Import ListNotations.
 
 (** ** 0. What the specification predicates say, written out *)
@@ -97,6 +97,20 @@ Theorem C06_oracle_ok_meaning : forall (enum : list N -> list N -> list mapping)
    NoDupA (@Permutation (N * N)) L).
 Proof. exact oracle_ok_meaning. Qed.
 Print Assumptions C06_oracle_ok_meaning.
+
+(** the monitor implies the premise: for an order-sensitive case the model evaluates
+    [find (lookup_or t H P)] (the recorded networkx enumeration of every call; the verified
+    enumerator for a call that was never recorded) and the two flags [wfb H && wfb P] and
+    [table_ok2 H P t] (every recorded enumeration is, entry by entry and as sets of pairs,
+    a rearrangement of the verified enumerator's list).  When both flags are true - the
+    harness compares them with the constant true on every such case - all premises of the
+    theorems of this file hold for that oracle: nothing about networkx is assumed for the
+    cases that were run. *)
+Theorem C06_run_list_premises : forall (H P : graph) (t : table),
+  wfb H && wfb P = true -> table_ok2 H P t = true ->
+  gwf H /\ gwf P /\ LGraph.wf P /\ oracle_ok (lookup_or t H P) H P.
+Proof. exact run_list_premises. Qed.
+Print Assumptions C06_run_list_premises.
 
 (** ** 2. Component-aware strategy, no limits (for every threshold from some T0 on).
     What the code does, in this order:
